@@ -101,23 +101,30 @@ func spec_recvOK(i int) bool { panic("spec") }
 //@     (forall k1, k2 string :: has(v.idsymtabl, k1) && has(v.idsymtabl, k2) && k1 != k2 ==> v.idsymtabl[k1] != v.idsymtabl[k2])
 
 //@ func (*astDeclareVistor).Process
-//@ props C11
+//@ props C11 C04
 //@ requires v != nil && node != nil && tableOK(v) && iface_val(*node) != 0
 //@ may_panic ""
 //@ ensures [C11] tableOK(v)
-//@ loop 0: invariant [C11] tableOK(v)
-//@ loop 1: invariant [C11] tableOK(v)
-//@ loop 2: invariant [C11] tableOK(v)
-//@ loop 3: invariant [C11] tableOK(v)
-//@ loop 4: invariant [C11] tableOK(v)
-//@ loop 5: invariant [C11] tableOK(v) && before(v.idMaxValue) <= v.idMaxValue
-//@ loop 5: invariant [C11] forall k string :: (has(v.idsymtabl, k) <==> has(before(v.idsymtabl), k)) && v.idsymtabl[k] == before(v.idsymtabl[k])
+//@ loop 0: invariant tableOK(v)
+//@ loop 1: invariant tableOK(v)
+//@ loop 2: invariant tableOK(v)
+//@ loop 3: invariant tableOK(v)
+// C04: the k-th %left/%right/%nonassoc line gets precedence level (level before) + k: later lines bind tighter,
+// and every symbol of a line gets that line's level and associativity
+//@ loop 3: invariant [C04] v.precIndex == before(v.precIndex) + idx3
+//@ loop 3: invariant [C04] forall i int :: before(len(v.preIdList)) <= i && i < len(v.preIdList) ==> before(v.precIndex) < v.preIdList[i].Prec && v.preIdList[i].Prec <= v.precIndex
+//@ loop 4: invariant [C04] forall i int :: before(len(v.preIdList)) <= i && i < len(v.preIdList) ==> v.preIdList[i].Prec == v.precIndex && v.preIdList[i].AssocType == rng4[i - before(len(v.preIdList))].AssocType
+//@ loop 4: invariant [C04] len(v.preIdList) == before(len(v.preIdList)) + idx4 && v.precIndex == before(v.precIndex)
+//@ loop 4: invariant [C04] forall i int :: 0 <= i && i < before(len(v.preIdList)) ==> v.preIdList[i] == before(v.preIdList[i])
+//@ loop 4: invariant tableOK(v)
+//@ loop 5: invariant tableOK(v) && before(v.idMaxValue) <= v.idMaxValue
+//@ loop 5: invariant forall k string :: (has(v.idsymtabl, k) <==> has(before(v.idsymtabl), k)) && v.idsymtabl[k] == before(v.idsymtabl[k])
 // values that were set by the declarations are kept; values handed out here are new, above the old maximum
-//@ loop 5: invariant [C11] forall k string :: has(v.idsymtabl, k) && before(v.idsymtabl[k].Value) != 0 ==> v.idsymtabl[k].Value == before(v.idsymtabl[k].Value)
-//@ loop 5: invariant [C11] forall k string :: has(v.idsymtabl, k) && before(v.idsymtabl[k].Value) == 0 && v.idsymtabl[k].Value != 0 ==> v.idsymtabl[k].Value > before(v.idMaxValue)
-//@ loop 5: invariant [C11] forall k1, k2 string :: has(v.idsymtabl, k1) && has(v.idsymtabl, k2) && k1 != k2 &&
+//@ loop 5: invariant forall k string :: has(v.idsymtabl, k) && before(v.idsymtabl[k].Value) != 0 ==> v.idsymtabl[k].Value == before(v.idsymtabl[k].Value)
+//@ loop 5: invariant forall k string :: has(v.idsymtabl, k) && before(v.idsymtabl[k].Value) == 0 && v.idsymtabl[k].Value != 0 ==> v.idsymtabl[k].Value > before(v.idMaxValue)
+//@ loop 5: invariant forall k1, k2 string :: has(v.idsymtabl, k1) && has(v.idsymtabl, k2) && k1 != k2 &&
 //@     before(v.idsymtabl[k1].Value) == 0 && v.idsymtabl[k1].Value != 0 && before(v.idsymtabl[k2].Value) == 0 && v.idsymtabl[k2].Value != 0 ==> v.idsymtabl[k1].Value != v.idsymtabl[k2].Value
-//@ loop 5: invariant [C11] forall j int :: 0 <= j && j < idx5 ==> v.idsymtabl[rng5[j]].Value != 0
+//@ loop 5: invariant forall j int :: 0 <= j && j < idx5 ==> v.idsymtabl[rng5[j]].Value != 0
 
 // ---------------------------------------------------------------------------------------------
 // C17 / C11: names shown to the user. A character literal 'c' is stored under the internal name "$operator" + c
@@ -128,3 +135,38 @@ func spec_recvOK(i int) bool { panic("spec") }
 //@ ensures [C17] len(in) > 9 && in[0:9] == "$operator" ==> out == "'" + in[9:] + "' "
 //@ ensures [C17] !(len(in) > 9 && in[0:9] == "$operator") ==> out == in
 //@ modifies nothing
+
+// ---------------------------------------------------------------------------------------------
+// C04 / C12: rules. The precedence of a rule is that of its %prec symbol if it has one, otherwise that of the LAST
+// right-hand-side symbol that carries a precedence, otherwise none. A right-hand-side symbol that is neither a
+// declared identifier nor the left-hand side of some rule stops generation ("It's not define symbol").
+
+// lastPrec(v, rd, n, pid): pid is the precedence entry of the last symbol among the first n right-hand-side
+// elements of rule definition rd that has one (nil if there is none)
+//@ def isSy(e RightSymOrAction) = e.ElemType == RightSyType
+//@ def precOf(v *RuleVistor, e RightSymOrAction) = v.preMap[v.idsymtabl[e.Element].Name]
+//@ def lastPrec(v *RuleVistor, rp []RightSymOrAction, n int, pid *precId) =
+//@     (pid == nil && (forall k int :: 0 <= k && k < n && isSy(rp[k]) ==> precOf(v, rp[k]) == nil)) ||
+//@     (pid != nil && (exists k int :: 0 <= k && k < n && isSy(rp[k]) && precOf(v, rp[k]) == pid &&
+//@         (forall k2 int :: k < k2 && k2 < n && isSy(rp[k2]) ==> precOf(v, rp[k2]) == nil)))
+
+//@ func (*RuleVistor).Process
+//@ props C04 C12
+//@ requires v != nil && v.astDeclareVistor != nil && node != nil && iface_val(*node) != 0
+//@ requires forall k string :: has(v.idsymtabl, k) ==> v.idsymtabl[k] != nil
+//@ requires forall i int :: 0 <= i && i < len(v.preIdList) ==> v.preIdList[i].Id != nil
+//@ may_panic "It's not define symbol"
+//@ may_panic "not RuleDefNode"
+// every rule produced carries the precedence the statement of C04 prescribes
+//@ before_stmt [C04] "v.rules = append(v.rules, r)" ruledef.PrecSym != "" ==> r.PrecIdSym == v.preMap[ruledef.PrecSym]
+//@ before_stmt [C04] "v.rules = append(v.rules, r)" ruledef.PrecSym == "" ==> lastPrec(v, ruledef.RightPart, len(ruledef.RightPart), r.PrecIdSym)
+// a symbol reaches a rule only if it is in the identifier table (declared, or the left-hand side of a rule)
+//@ before_stmt [C12] "r.RighPart = append(r.RighPart, id)" id != nil && has(v.idsymtabl, right.Element) && id == v.idsymtabl[right.Element]
+//@ loop 0: invariant forall i int :: 0 <= i && i < len(v.preIdList) ==> v.preIdList[i].Id != nil
+//@ loop 1: invariant forall k string :: has(v.idsymtabl, k) ==> v.idsymtabl[k] != nil
+//@ loop 1: invariant v.preMap == before(v.preMap)
+//@ loop 2: invariant forall k string :: has(v.idsymtabl, k) ==> v.idsymtabl[k] != nil
+//@ loop 2: invariant v.preMap == before(v.preMap) && v.idsymtabl == before(v.idsymtabl)
+//@ loop 3: invariant r != nil && allocated(r) && v.preMap == before(v.preMap) && v.idsymtabl == before(v.idsymtabl)
+//@ loop 3: invariant forall k string :: has(v.idsymtabl, k) ==> v.idsymtabl[k] != nil
+//@ loop 3: invariant [C04] lastPrec(v, ruledef.RightPart, idx3, r.PrecIdSym)
